@@ -423,17 +423,10 @@ func (w *world) itemObs(tbl tblSet, ev *eval.Evaler, buf string, from, to int, i
 		return App("mkIObs", "WNoWord", "EOtherObs"), "range outside buffer"
 	}
 	newbuf := buf[:from] + ins + buf[to:]
-	tree, err := parse.Parse(parse.Source{Name: "[c43]", Code: newbuf}, parse.Config{})
+	tree, _ := parse.Parse(parse.Source{Name: "[c43]", Code: newbuf}, parse.Config{})
 	cn := compoundAt(tree.Root, from)
 	if cn == nil {
 		return App("mkIObs", "WNoWord", "EOtherObs"), "no word at the position"
-	}
-	if err != nil {
-		for _, e := range parse.UnpackErrors(err) {
-			if e.Context.From >= from && e.Context.From <= cn.Range().To {
-				return App("mkIObs", "WParseErr", "EParseErr"), "parse error in the word"
-			}
-		}
 	}
 	var ps []string
 	literal := true
@@ -450,6 +443,10 @@ func (w *world) itemObs(tbl tblSet, ev *eval.Evaler, buf string, from, to int, i
 		return App("mkIObs", "WNoWord", "EOtherObs"), "not a literal word: " + parse.SourceText(cn)
 	}
 	ecoq, eshow := w.evalWord(ev, parse.SourceText(cn))
+	if ecoq == "EParseErr" {
+		// a parse error inside the word itself (it is evaluated alone)
+		return App("mkIObs", "WParseErr", "EParseErr"), "parse error in the word " + parse.SourceText(cn)
+	}
 	return App("mkIObs", App("WWord", List(ps), Nat(cn.Range().To-from)), ecoq),
 		fmt.Sprintf("word %q = %s", parse.SourceText(cn), eshow)
 }
@@ -659,7 +656,7 @@ func (w *world) oneCase(c *reg.Ctx, ev *eval.Evaler, t template) {
 			}
 			last := i == nCuts || rest == ""
 			// style of this piece
-			st := []parse.PrimaryType{parse.Bareword, parse.SingleQuoted, parse.DoubleQuoted}[c.Rand.Intn(3)]
+			st := []parse.PrimaryType{parse.Bareword, parse.Bareword, parse.SingleQuoted, parse.DoubleQuoted}[c.Rand.Intn(4)]
 			prevBare := len(pieces) > 0 && pieces[len(pieces)-1].style == parse.Bareword
 			prevVar := len(pieces) > 0 && pieces[len(pieces)-1].style == parse.Variable
 			if st == parse.Bareword && (!bareSafe(part) || prevBare || (prevVar && !strings.HasPrefix(part, "/")) ||
@@ -780,6 +777,10 @@ func (w *world) oneCase(c *reg.Ctx, ev *eval.Evaler, t template) {
 		txt := parse.SourceText(sep)
 		if i := strings.LastIndexByte(txt, '#'); i >= 0 && !strings.Contains(txt[i:], "\n") {
 			class = "new-word-in-comment"
+		} else if p2 := np.Find(tree.Root, sep.Range().To); len(p2) > 0 {
+			if pn, ok := p2[0].(*parse.Primary); ok && pn.Range().From == sep.Range().To {
+				class = "new-word-directly-before-word"
+			}
 		}
 	}
 
